@@ -155,6 +155,14 @@ def run_bondgo(src, rsize, workdir, delay_ms=0, deadline=20):
     return text, p.stdout, ("error" if "Error:" in p.stdout else "")
 
 
+def run_mpm(args, cwd, timeout=60):
+    """-> stdout, or None when the compiler does not finish within the deadline"""
+    try:
+        return subprocess.run(args, cwd=cwd, env=C.GOENV, timeout=timeout, stdout=subprocess.PIPE, stderr=subprocess.STDOUT, text=True).stdout
+    except subprocess.TimeoutExpired:
+        return None
+
+
 # ---------------------------------------------------------------- control flow (differential: no Coq source semantics yet)
 
 def gen_cf_prog(rnd):
@@ -179,8 +187,55 @@ def gen_cf_prog(rnd):
         c = rnd.choice([2, 3])
         return "reg_v%d * %d" % (a, c), "(v[%d] * %d) %% M" % (a, c)
 
+    # user functions (inlined by the compiler): value parameters, a local, if/else on a constant, a return value
+    funcs = []      # (name, arity)
+    fsrc, fpy = [], []
+    for fi in range(rnd.choice([0, 1, 1, 2])):
+        ar = rnd.choice([1, 1, 2])
+        ps = ["reg_p%d" % j for j in range(ar)]
+
+        # expressions are built explicitly so that the Go text and the Python mirror cannot drift apart
+        def fe():
+            a_ = rnd.randrange(ar)
+            c = rnd.choice([1, 2, 7])
+            k_ = rnd.randrange(3)
+            if k_ == 0:
+                return "%s + %d" % (ps[a_], c), "(p[%d] + %d) %% M" % (a_, c)
+            if k_ == 1:
+                return "%s * %d" % (ps[a_], c), "(p[%d] * %d) %% M" % (a_, c)
+            b_ = rnd.randrange(ar)
+            return "%s + %s" % (ps[a_], ps[b_]), "(p[%d] + p[%d]) %% M" % (a_, b_)
+        name = "fn%d" % fi
+        fsrc.append("func %s(%s) %s {" % (name, ", ".join("%s %s" % (q, "uint%d" % rsize) for q in ps), "uint%d" % rsize))
+        fsrc.append("\tvar reg_r uint%d" % rsize)
+        fpy.append("def %s(*p):" % name)
+        shape = rnd.randrange(3)
+        g1, p1 = fe()
+        g2, p2 = fe()
+        if shape == 0:
+            fsrc.append("\treg_r = %s" % g1)
+            fpy.append("    r = %s" % p1)
+        else:
+            cond = rnd.random() < 0.5
+            fsrc += ["\tif %s {" % ("true" if cond else "false"), "\t\treg_r = %s" % g1, "\t} else {", "\t\treg_r = %s" % g2, "\t}"]
+            fpy += ["    if %s:" % ("True" if cond else "False"), "        r = %s" % p1, "    else:", "        r = %s" % p2]
+            if shape == 2:
+                g3, p3 = fe()
+                fsrc.append("\treg_r = reg_r + %s" % g3.split(" ")[0])
+                fpy.append("    r = (r + p[%d]) %% M" % ps.index(g3.split(" ")[0]))
+        fsrc += ["\treturn reg_r", "}", ""]
+        fpy.append("    return r")
+        funcs.append((name, ar))
+
     def simple(ind, pind):
         k = rnd.randrange(10)
+        if funcs and rnd.random() < 0.3:
+            name, ar = rnd.choice(funcs)
+            args = [expr() for _ in range(ar)]
+            a = rnd.randrange(nv)
+            lines.append(ind + "reg_v%d = %s(%s)" % (a, name, ", ".join(x[0] for x in args)))
+            py.append(pind + "v[%d] = %s(%s)" % (a, name, ", ".join(x[1] for x in args)))
+            return
         if k < 5:
             g, p = expr()
             o = rnd.randrange(nouts)
@@ -238,6 +293,10 @@ def gen_cf_prog(rnd):
                 if kind != "write":
                     lines.append(ind + "\t\t" + kind)
                     py.append(pind + "        " + kind)
+                if rnd.random() < 0.3:
+                    lines.append(ind + "\t} else {")
+                    py.append(pind + "    else:")
+                    simple(ind + "\t\t", pind + "        ")
                 lines.append(ind + "\t}")
             elif depth < 1 and c < 8:
                 loop(depth + 1, ind + "\t", pind + "    ")
@@ -251,7 +310,7 @@ def gen_cf_prog(rnd):
     for _ in range(rnd.randint(0, 2)):
         simple("\t", "")
     ty = "uint%d" % rsize
-    head = ["package main", "", "import (", "\t\"bondgo\"", ")", "", "func main() {"]
+    head = ["package main", "", "import (", "\t\"bondgo\"", ")", ""] + fsrc + ["func main() {"]
     head += ["\tvar out%d bondgo.Output" % o for o in range(nouts)] + ["\tvar reg_v%d %s" % (i, ty) for i in range(nv)]
     head += ["\tout%d = bondgo.Make(bondgo.Output, %d)" % (o, o + 3) for o in range(nouts)]
     # a program whose main returns has no defined continuation on the machine (the ROM beyond the program is not code, and the
@@ -269,13 +328,87 @@ def gen_cf_prog(rnd):
         if steps[0] > 400 or len(env["w"]) > 60:
             raise Stop()
     env["tick"] = tick
-    code = "\n".join(py)
+    code = "\n".join(fpy + py)
     try:
         # nested loops reuse the name 'first': give every loop its own by indentation depth
         exec(compile(code, "<generated>", "exec"), env)
     except Stop:
         pass
     return src, env["w"], rsize, nouts, code
+
+
+def goroutine_part(res, rnd, a, work):
+    """goroutines without arguments: every goroutine becomes a processor of the machine the compiler requests; each source output
+    must appear as one machine output carrying exactly the values written to it, and the machine must not vary between compiles"""
+    viol, done = [], 0
+    for k in range(4 if a.tier == "quick" else 30):
+        rsize = rnd.choice([8, 16])
+        ty = "uint%d" % rsize
+        nw = rnd.randint(1, 3)
+        ids = rnd.sample(range(2, 12), nw + 2)
+        lines = ["package main", "", "import (", "\t\"bondgo\"", ")", ""]
+        want = {}
+        for w in range(nw):
+            vals = [rnd.randrange(1, 200) for _ in range(rnd.randint(1, 2))]
+            lines += ["func worker%d() {" % w, "\tvar reg_w %s" % ty, "\tvar outw bondgo.Output", "\toutw = bondgo.Make(bondgo.Output, %d)" % ids[w]]
+            for v in vals:
+                lines += ["\treg_w = %d" % v, "\tbondgo.IOWrite(outw, reg_w)"]
+            lines += ["\tfor {", "\t}", "}", ""]
+            want[ids[w]] = vals
+        a_, b_ = rnd.randrange(1, 200), rnd.randrange(1, 200)
+        lines += ["func main() {", "\tvar reg_a %s" % ty, "\tvar outa bondgo.Output", "\tvar outb bondgo.Output",
+                  "\touta = bondgo.Make(bondgo.Output, %d)" % ids[nw], "\toutb = bondgo.Make(bondgo.Output, %d)" % ids[nw + 1]]
+        lines += ["\tgo worker%d()" % w for w in range(nw)]
+        lines += ["\treg_a = %d" % a_, "\tbondgo.IOWrite(outa, reg_a)", "\treg_a = %d" % b_, "\tbondgo.IOWrite(outb, reg_a)", "\tbondgo.IOWrite(outa, reg_a)",
+                  "\tfor {", "\t}", "}", ""]
+        want[ids[nw]] = [a_, b_]
+        want[ids[nw + 1]] = [b_]
+        src = "\n".join(lines)
+        meta = {"source": src}
+        res.count_case({"src": src}, nontrivial=True)
+        open(os.path.join(work, "g.go"), "w").write(src)
+        mj = os.path.join(work, "g.json")
+        texts = []
+        out = ""
+        for rep in range(8):
+            if os.path.exists(mj):
+                os.remove(mj)
+            out = run_mpm([BONDGO, "-input-file", os.path.join(work, "g.go"), "-register-size", str(rsize), "-mpm", "-save-bondmachine", mj], work)
+            if out is None:
+                break
+            texts.append(open(mj).read() if os.path.exists(mj) else None)
+        if out is None:
+            viol.append(("the compiler does not terminate (deadline 60 s) on a program with %d goroutines" % nw, meta))
+            continue
+        if texts[0] is None:
+            viol.append(("a program with %d goroutines (no arguments) is not compiled: %s" % (nw, out[-300:]), meta))
+            continue
+        if len(set(texts)) > 1:
+            viol.append(("compiling a program with %d goroutines 8 times gives %d different machines" % (nw, len(set(texts))), meta))
+            continue
+        r = simlib.run_sims([{"bm": {"json": texts[0]}, "env": [], "ticks": 120, "dump": "ext"}])[0]
+        if r.get("err"):
+            viol.append(("the machine the compiler requests for a program with goroutines cannot be simulated: %s" % r["err"], meta))
+            continue
+        done += 1
+        seqs = []
+        for o in range(len(r["ticks"][-1]["out"])):
+            seq = []
+            for t in r["ticks"]:
+                if not seq or seq[-1] != t["out"][o]:
+                    seq.append(t["out"][o])
+            seqs.append(seq)
+
+        def merged(vals):
+            m = [0]
+            for v in vals:
+                if m[-1] != v:
+                    m.append(v)
+            return m
+        wanted = sorted(merged(v) for v in want.values())
+        if sorted(seqs) != wanted:
+            viol.append(("the machine's outputs show the value sequences %s; the source's outputs are written %s" % (sorted(seqs), wanted), meta))
+    return viol, done
 
 
 def control_flow_part(res, rnd, a, work):
@@ -318,6 +451,52 @@ def control_flow_part(res, rnd, a, work):
         mlen = min(len(got), len(want))
         if got[:mlen] != want[:mlen] or (mlen == 0 and (got or want)):
             viol.append(("the compiled program writes %s, Go semantics gives %s" % (got[:12], want[:12]), meta))
+            continue
+        # the machine the compiler itself requests (multi-processor mode writes it): the value sequence on each machine output
+        # must be the sequence the source writes to the output with that rank (outputs are numbered in the order of their ids)
+        if k % 2 == 0 or nouts > 1:
+            mj = os.path.join(work, "bm.json")
+            if os.path.exists(mj):
+                os.remove(mj)
+            texts = []
+            for rep in range(6 if nouts > 1 else 1):
+                if os.path.exists(mj):
+                    os.remove(mj)
+                if run_mpm([BONDGO, "-input-file", os.path.join(work, "p.go"), "-register-size", str(rsize), "-mpm", "-save-bondmachine", mj], work) is None:
+                    texts = ["timeout"]
+                    break
+                texts.append(open(mj).read() if os.path.exists(mj) else None)
+            if texts == ["timeout"]:
+                viol.append(("the compiler does not terminate (deadline 60 s) in multi-processor mode", meta))
+                continue
+            if texts[0] is None:
+                viol.append(("the compiler writes no machine in multi-processor mode for a program it compiles in single-processor mode", meta))
+                continue
+            if len(set(texts)) > 1:
+                viol.append(("compiling the same source %d times gives %d different machines (the numbering of the machine's outputs varies)"
+                             % (len(texts), len(set(texts))), meta))
+                continue
+            open(mj, "w").write(texts[0])
+            r2 = simlib.run_sims([{"bm": {"json": open(mj).read()}, "env": [], "ticks": ticks, "dump": "ext"}])[0]
+            if r2.get("err"):
+                viol.append(("the machine the compiler requests cannot be simulated: %s" % r2["err"], meta))
+                continue
+            for o in range(nouts):
+                seq = []
+                for t in r2["ticks"]:
+                    v = t["out"][o] if o < len(t["out"]) else None
+                    if not seq or seq[-1] != v:
+                        seq.append(v)
+                wo = [0]
+                for (oo, v) in want:
+                    if oo == o and wo[-1] != v:
+                        wo.append(v)
+                seq = seq[:len(wo)] if len(seq) > len(wo) else seq
+                # the simulated prefix must be a prefix of what the source writes (consecutive duplicates merged on both sides)
+                if seq != wo[:len(seq)] or (len(wo) > 1 and len(seq) < 2):
+                    viol.append(("on the machine the compiler requests, output %d shows the value sequence %s; the source writes %s to that output"
+                                 % (o, seq[:10], wo[:10]), meta))
+                    break
     return viol, done
 
 
@@ -328,6 +507,7 @@ def run(res, a):
         "allocator's notifications and under a deadline, and its assembly output is compared instruction by instruction with the "
         "model's compile", "Isa/Sim.v as the meaning of the emitted assembly (tied to the Go simulator by C09's per-tick comparison)"])
     build_bondgo()
+    C.build_harness()
     rnd = random.Random(a.seed)
     n = 30 if a.tier == "quick" else 400
     work = tempfile.mkdtemp(prefix="verif-c12-")
@@ -374,8 +554,31 @@ def run(res, a):
                 m = re.search(r"Registersize: (\d+)", reqs)
                 rows.append("(%s, %s, %d, %d%%N)" % (coq_prog(stmts), C.cq_list(terms), int(m.group(1)) if m else 0, rsize))
                 metas.append(meta)
+        # goroutines with arguments (corpus/bondgo): each goroutine becomes a processor and its arguments travel over a channel
+        import glob
+        known = {k["key"] for k in C.known_findings("C12")}
+        for f in sorted(glob.glob(os.path.join(C.VERIF, "corpus/bondgo/*.go"))):
+            text = open(f).read()
+            if "go " not in text:
+                continue
+            d = tempfile.mkdtemp(dir=work)
+            open(os.path.join(d, "p.go"), "w").write(text)
+            pout = run_mpm([BONDGO, "-input-file", "p.go", "-register-size", "8", "-save-bondmachine", "bm.json", "-mpm"], d, timeout=120)
+            res.count_case({"src": text}, nontrivial=True)
+            if pout is None:
+                viol.append(("the compiler does not terminate (deadline 120 s) on %s" % os.path.basename(f), {"source": text}))
+            elif not os.path.exists(os.path.join(d, "bm.json")):
+                why = [l for l in pout.splitlines() if "error" in l.lower()][:1]
+                msg = "%s (goroutines with arguments) is not compiled: %s" % (os.path.basename(f), (why or [pout[-200:]])[0])
+                if "error processing chw" in pout and "c12_goroutine_arguments_rejected" in known:
+                    res.known_finding("c12_goroutine_arguments_rejected " + msg)
+                else:
+                    viol.append((msg, {"source": text}))
         cf_viol, cf_done = control_flow_part(res, rnd, a, work)
         viol += cf_viol
+        go_viol, go_done = goroutine_part(res, rnd, a, work)
+        viol += go_viol
+        res.coverage["goroutine_programs_compared"] = go_done
         res.coverage["control_flow_programs_compared"] = cf_done
     finally:
         shutil.rmtree(work, ignore_errors=True)
